@@ -32,7 +32,7 @@ VARIABLES reg, cfg, handles, hist, tree
 
 Engines == {1, 2}
 Names == {"n1", "n2"}
-LoaderNames == {"n3", "pm"}     \* served by an array loader on every engine (pm: p/m, which includes its neighbour p/b)
+LoaderNames == {"n3", "pm", "ph", "sh"}     \* served by an array loader on every engine (pm: p/m, which includes its neighbour p/b; p/h and s/h call the library lb)
 FsNames == {"n4", "n5"}         \* served by a file-system loader with two search paths on every engine
 HasPolicy(e) == e = 1           \* engine 2 has no security policy: a sandboxed include fails there
 
@@ -79,8 +79,14 @@ SrcBody(id) ==
       [] id = 26 -> <<T(<<91>>), Include(LS(<<46, 47, 98>>), Lit(Null), FALSE, FALSE, TRUE, FALSE), T(<<93>>), PrintS(Var("x"))>>
       [] id = 27 -> <<T(<<80, 91>>), Inc(LS(<<46, 47, 98>>)), T(<<93>>)>>
       [] id = 28 -> <<T(<<66>>), PrintS(Var("x"))>>
+      \* an engine global (every engine has its own value of g)
+      [] id = 29 -> <<T(<<103, 61>>), PrintS(Var("g")), PrintS(Var("x"))>>
+      \* pages in two directories that call one library macro, which includes its caller's neighbour ./b
+      [] id = 30 -> <<Import(LS(<<108, 98>>), "L"), T(<<60>>), PrintS(MCall("L", "inc", <<>>)), T(<<62>>), PrintS(Var("x"))>>
+      [] id = 31 -> <<T(<<83>>), PrintS(Var("x"))>>
+      [] id = 32 -> <<Macro("inc", <<>>, <<T(<<105, 58>>), Inc(LS(<<46, 47, 98>>))>>)>>
 SrcPieces(id) == IF id = 3 THEN RawSyntaxError ELSE Source(SrcBody(id), LMin)
-AllSrc == 1..28
+AllSrc == 1..32
 IsSyntaxError(id) == id = 3
 RefersToN2 == {5, 6, 8, 13, 25}
 SrcFor(n) == IF n = "n1" THEN {1, 2, 3, 4, 5, 6, 8, 10, 12, 13, 14, 15, 16, 18, 23, 25} ELSE {1, 3, 4, 7, 9, 10, 14, 15, 16, 17, 19, 24}     \* no recursion: only n1 refers to n2
@@ -124,6 +130,12 @@ RenderHandle(h, c) ==
     /\ hist' = Append(hist, Op("renderh", handles[h].e, [h |-> h, c |-> c,
                                 key |-> ToJson(Key(handles[h].e, [src |-> handles[h].s], c)), stale |-> FALSE]))
     /\ UNCHANGED <<reg, cfg, handles, tree>>
+\* the template object the caller keeps is also registered with the other engine (under a name nobody renders): the object
+\* is shared, what it renders on its own engine stays what it was
+RegHandle(h) ==
+    /\ h \in 1..Len(handles)
+    /\ hist' = Append(hist, Op("reghandle", 2, [h |-> h]))
+    /\ UNCHANGED <<reg, cfg, handles, tree>>
 SetCache(e, b) ==
     /\ cfg[e].cache # b
     /\ cfg' = [cfg EXCEPT ![e].cache = b]
@@ -165,7 +177,8 @@ FullNext ==
     /\ Len(hist) < MaxLen
     /\ \/ \E n \in Names : \E s \in SrcFor(n) : Register(1, n, s)
        \/ \E s \in {1, 3, 6} : ParseOnly(1, s)
-       \/ \E s \in {2, 5, 26} : ParseKeep(1, s)
+       \/ \E s \in {2, 5, 26, 29} : ParseKeep(1, s)
+       \/ \E h \in 1..2 : RegHandle(h)
        \/ \E n \in Names \cup LoaderNames : \E c \in {1, 2} : DoRender(1, n, c, IF c = 1 THEN "render" ELSE "renderto")
        \/ DoRender(1, "n1", 3, "render")
        \/ \E n \in FsNames : DoRender(1, n, 1, "render")
@@ -190,7 +203,7 @@ NoStaleRender == \A i \in 1..Len(hist) : hist[i].op \in {"render", "renderh"} =>
 Header == [hdr |-> TRUE, prop |-> "C01",
            sources |-> [id \in AllSrc |-> SrcPieces(id)],       \* printed as a JSON array: index id-1
            ctxs |-> [c \in CtxIds |-> CtxOf(c)],
-           loader |-> [n3 |-> LoaderSrc, pm |-> 27, pb |-> 28],
+           loader |-> [n3 |-> LoaderSrc, pm |-> 27, pb |-> 28, ph |-> 30, sh |-> 30, sb |-> 31, lb |-> 32],
            fs |-> <<[n5 |-> 20], [n4 |-> 21, n5 |-> 22]>>,          \* search paths in order: name -> source id
            nopolicy |-> {e \in Engines : ~HasPolicy(e)},
            policy |-> [filters |-> {"upper", "default", "escape"}, functions |-> {"parent", "range"}]]
